@@ -59,8 +59,8 @@ type explorer struct {
 	stats    map[string]*opStats // "T (variant)"
 	perT     map[string]*opStats
 	errOn    map[string]string // "T (variant)" -> sample error text, for variants without a target
-	sampleAt map[int]any // deterministic samples: some depth-1 transitions of seed "tiny"
-	altsUsed map[string]int // "T: alternative i" -> count (which lenient reading cog follows)
+	sampleAt map[int]any       // deterministic samples: some depth-1 transitions of seed "tiny"
+	altsUsed map[string]int    // "T: alternative i" -> count (which lenient reading cog follows)
 	deadline time.Time
 	timedOut bool
 }
